@@ -140,7 +140,7 @@ Section PathStr.
                       match key with
                       | Some k => go rest prepend (s ++ (if next_comma then lit "," else []) ++ k ++ lit ":" ++ sub_s) need_assign true
                       | None => go rest (prepend ++ lit "(" ++ sub_s ++ lit ")===true||")
-                                   (s ++ lit "},X(" ++ sub_s ++ lit "),{") true false
+                                   (s ++ lit "},Q.c(" ++ sub_s ++ lit "),{") true false
                       end
                   | None => go rest prepend s need_assign next_comma
                   end
